@@ -49,5 +49,5 @@ HARNESSES += [HH(x, tiers=('thorough',)) for x in _t]
 ASSUMPTIONS = ['tier S: abstract suspend count = inline counter + side counter; representation invariant HAS_SIDE bit <=> side counter > 0, side counter in {0,32,64,96}',
                'the side lock is uncontended (its slow path is asserted unreachable); interference on the state word keeps the side-count bit',
                'resume lemma: count >= 1 and not inactive (over-resume and resume-before-activate are the documented crashes)']
-LEVEL_TEXT = 'placeholder'
-LEVEL_NOTE = 'placeholder'
+LEVEL_TEXT = 'Tier S: dispatch_suspend / dispatch_resume arithmetic over all state words x side counts {0,32,64,96}: total count (inline + side counter) changes by exactly one, the side-count bit stays consistent, resume to zero restarts the queue (wakeup, lock transfer, or DIRTY left for the current holder); a suspended/inactive word refuses every acquisition and is never enqueued; barrier completion on a suspended queue hands off to nobody. Tier H: all histories up to length 4 (thorough 5) over {suspend, resume, activate, async, sync, worker} incl. queues created inactive and inline counters pre-loaded at 61..63 so that the side counter is crossed; nothing starts while suspended/inactive, everything pending runs after the last resume/activate, count bookkeeping checked at the end.'
+LEVEL_NOTE = 'Side lock uncontended; at most one synchronous caller blocked at a time (sequential model wakes sleepers LIFO); the one item a serial queue has already committed to when suspended from another thread cannot arise in a sequential history.'
